@@ -330,6 +330,7 @@ func c19Replication(c *h.Ctx, id string, r *rand.Rand) {
 	}
 	var gaps []int
 	sinceSync := 0
+	var maxKnown uint64 // highest sequence number of the publisher's log the peer has applied so far in this case
 	pubOp := func() {
 		nm := names[r.Intn(len(names))]
 		ann := r.Intn(3) != 0
@@ -341,6 +342,36 @@ func c19Replication(c *h.Ctx, id string, r *rand.Rand) {
 			}
 		})
 	}
+	// spinning: the quiescence detector gave up because the routers never stop working. If that work is
+	// a fetch loop - fetches keep being answered while the sequence number the peer has applied stays
+	// put - it is reported as what it is instead of an inconclusive run.
+	spinning := func(when string) bool {
+		sample := func() (int, uint64, uint64) {
+			var known, latest uint64
+			peer.r.VerifLocked(func() {
+				pr := peer.r.VerifPfx().GetRouter(pub.name)
+				known, latest = pr.Known, pr.Latest
+			})
+			s.mu.Lock()
+			defer s.mu.Unlock()
+			return s.nPfxDelivered, known, latest
+		}
+		d0, k0, _ := sample()
+		for i := 0; i < 40; i++ {
+			time.Sleep(50 * time.Millisecond)
+			d1, k1, l1 := sample()
+			if k1 != k0 {
+				d0, k0 = d1, k1
+				continue
+			}
+			if d1-d0 >= 30 && k1 < l1 {
+				c.Violation("C19:replication-fetches-without-progress", id, fmt.Sprintf("%s: the routers never come to rest: %d more prefix-table fetches of the peer were answered while it kept the publisher's log applied up to sequence %d of %d", when, d1-d0, k1, l1),
+					map[string]any{"ops_since_last_sync": sinceSync, "sync_gaps": gaps, "publisher_table_size": len(names), "events_tail": s.events[max(0, len(s.events)-30):]})
+				return true
+			}
+		}
+		return false
+	}
 	check := func(when string) bool {
 		heard := false
 		if (sinceSync > 100 && r.Intn(2) == 0) || (sinceSync >= 1 && sinceSync <= 100 && r.Intn(4) == 0) {
@@ -349,7 +380,9 @@ func c19Replication(c *h.Ctx, id string, r *rand.Rand) {
 			// after the publisher has logged more operations and the peer has heard about them
 			s.holdPrefixReplies(true)
 			if !s.notifyPrefixSync(0) {
-				c.Inconclusive(s.bad)
+				if !spinning(when) {
+					c.Inconclusive(s.bad)
+				}
 				return false
 			}
 			time.Sleep(2 * time.Millisecond)
@@ -358,13 +391,17 @@ func c19Replication(c *h.Ctx, id string, r *rand.Rand) {
 				pubOp()
 			}
 			if !s.notifyPrefixSync(0) {
-				c.Inconclusive(s.bad)
+				if !spinning(when) {
+					c.Inconclusive(s.bad)
+				}
 				return false
 			}
 			s.holdPrefixReplies(false)
 			n, ok := s.releasePrefixReplies()
 			if !ok {
-				c.Inconclusive(s.bad)
+				if !spinning(when) {
+					c.Inconclusive(s.bad)
+				}
 				return false
 			}
 			if n > 0 {
@@ -384,12 +421,14 @@ func c19Replication(c *h.Ctx, id string, r *rand.Rand) {
 		// peer catches up. When it has already heard of the latest sequence number while its fetch
 		// was pending, nothing tells it again (the sync layer reports a sequence number once)
 		if !heard && !s.notifyPrefixSync(0) {
-			c.Inconclusive(s.bad)
+			if !spinning(when) {
+				c.Inconclusive(s.bad)
+			}
 			return false
 		}
 		// wait until the peer's known sequence reaches the latest (the fetch loop is the router's own)
 		deadline := time.Now().Add(20 * time.Second)
-		var maxKnown uint64
+		progressAt := -1
 		for {
 			var known, latest uint64
 			peer.r.VerifLocked(func() {
@@ -402,9 +441,25 @@ func c19Replication(c *h.Ctx, id string, r *rand.Rand) {
 					map[string]any{"ops_since_last_sync": sinceSync, "sync_gaps": gaps, "publisher_table_size": len(names), "events_tail": s.events[max(0, len(s.events)-30):]})
 				return false
 			}
+			if known > maxKnown || progressAt < 0 {
+				s.mu.Lock()
+				progressAt = s.nPfxDelivered
+				s.mu.Unlock()
+			}
 			maxKnown = known
 			if known >= latest {
 				break
+			}
+			// every answered fetch carries the next log entry or a snapshot beyond what the peer has:
+			// thirty answered fetches in a row that leave the applied sequence number where it was are
+			// a fetch loop that makes no progress (not a slow one)
+			s.mu.Lock()
+			answered := s.nPfxDelivered - progressAt
+			s.mu.Unlock()
+			if answered >= 30 {
+				c.Violation("C19:replication-fetches-without-progress", id, fmt.Sprintf("%s: the peer's last %d prefix-table fetches were all answered, yet it still has the publisher's log applied only up to sequence %d of %d", when, answered, known, latest),
+					map[string]any{"ops_since_last_sync": sinceSync, "sync_gaps": gaps, "publisher_table_size": len(names), "events_tail": s.events[max(0, len(s.events)-30):]})
+				return false
 			}
 			if time.Now().After(deadline) {
 				if s.nLostPfx > lostBefore {
